@@ -113,6 +113,12 @@ def run_case(rng, idx, tier):
                     c2 = Case()
                     try:
                         r2 = judge(dtext, m["data"], m["rows"], meta, random.Random(seed2), K, c2, wd, prefix="delta_")
+                        if r2 is not None:
+                            # the repaired program could not be judged (no regular sample point / refused): the
+                            # mismatch of this stratum-B case can neither be attributed nor shown to be new
+                            c.hit("delta_inconclusive")
+                            c.skipped = "delta-inconclusive"
+                            return c
                         if r2 is None:
                             non56 = [u for u in used if u != "trans56"]
                             key = KEYS[non56[0]] if len(non56) == 1 else None
